@@ -152,11 +152,11 @@ func streamSrvAsm(seed uint64, thorough bool) {
 	}
 	// --- corpus: the pinned tree's failures (all repaired) ---
 	fc3 := []byte{0x12, 0x30, 0, 0, 0, 6, 1, 3, 0, 0x6B, 0, 3}
-	srvAsmCase(0, [][]byte{fc3[:9], fc3[9:]})                                            // early reply (D4 i)
+	srvAsmCase(0, [][]byte{fc3[:9], fc3[9:]})                                                                 // early reply (D4 i)
 	srvAsmCase(0, [][]byte{append(append([]byte{}, fc3...), srvSetTid(append([]byte{}, fc3...), 0x1231)...)}) // pipelined (D4 ii)
-	srvAsmCase(0, [][]byte{{0, 1, 0, 0, 0, 2, 1, 17}})                                  // FC17 (D3)
-	srvAsmCase(0, [][]byte{srvSetTid(append([]byte{}, fc3...), 0x1235)})                // handler error addressing (D5)
-	srvAsmCase(0, [][]byte{{0, 9, 0, 0, 0, 2, 0x11, 7}, fc3})                           // 1-byte PDU, FC7 (finding 150)
+	srvAsmCase(0, [][]byte{{0, 1, 0, 0, 0, 2, 1, 17}})                                                        // FC17 (D3)
+	srvAsmCase(0, [][]byte{srvSetTid(append([]byte{}, fc3...), 0x1235)})                                      // handler error addressing (D5)
+	srvAsmCase(0, [][]byte{{0, 9, 0, 0, 0, 2, 0x11, 7}, fc3})                                                 // 1-byte PDU, FC7 (finding 150)
 
 	// --- exhaustive: all cut sets of streams of at most 16 bytes ---
 	var short [][]byte
@@ -169,21 +169,21 @@ func streamSrvAsm(seed uint64, thorough bool) {
 	f17 := func(tid uint16) []byte { return srvLegal(r, 17, tid, 0) }
 	short = append(short,
 		f17(0x0100),
-		append(f17(0x0200), f17(0x0301)...),                               // two pipelined 8-byte requests
-		append(f17(0x0204), f17(0x0302)...),                               // handler error, then a response
-		append(f17(0x0206), f17(0x0302)...),                               // handler panic, then a request
-		append(f17(0x0200), srvLegal(r, 3, 0x0401, 0)[:7]...),             // request + partial
-		append(srvLegal(r, 3, 0x0500, 0), srvLegal(r, 4, 0x0601, 0)[:4]...), // 12 + 4
-		append(f17(0x0700), []byte("GET / HT")...),                        // request + garbage
-		srvRawFrame(0x0801, 9, 0x2B, []byte{14, 1, 0}),                    // unsupported function 43
-		append(srvRawFrame(0x0901, 9, 8, []byte{0}), f17(0x0a01)...),      // unsupported, then supported
-		srvRawFrame(0x0b01, 3, 0x83, []byte{2}),                           // function code >= 128
-		srvFixLen(srvLegal(r, 3, 0x0c00, 0)[:10]),                         // truncated body
+		append(f17(0x0200), f17(0x0301)...),                                                 // two pipelined 8-byte requests
+		append(f17(0x0204), f17(0x0302)...),                                                 // handler error, then a response
+		append(f17(0x0206), f17(0x0302)...),                                                 // handler panic, then a request
+		append(f17(0x0200), srvLegal(r, 3, 0x0401, 0)[:7]...),                               // request + partial
+		append(srvLegal(r, 3, 0x0500, 0), srvLegal(r, 4, 0x0601, 0)[:4]...),                 // 12 + 4
+		append(f17(0x0700), []byte("GET / HT")...),                                          // request + garbage
+		srvRawFrame(0x0801, 9, 0x2B, []byte{14, 1, 0}),                                      // unsupported function 43
+		append(srvRawFrame(0x0901, 9, 8, []byte{0}), f17(0x0a01)...),                        // unsupported, then supported
+		srvRawFrame(0x0b01, 3, 0x83, []byte{2}),                                             // function code >= 128
+		srvFixLen(srvLegal(r, 3, 0x0c00, 0)[:10]),                                           // truncated body
 		func() []byte { b := srvLegal(r, 3, 0x0d00, 0); b[10], b[11] = 0, 126; return b }(), // quantity out of range
-		[]byte{0, 1, 0, 1, 0, 6, 1, 3, 0, 0, 0, 1},                       // protocol id 1
-		[]byte{0, 1, 0, 0, 0, 1, 1, 3, 0, 0, 0, 1},                       // length field 1
-		append(f17(0x0e00), 0, 1, 0, 0, 0, 2, 1, 7),                      // request + 1-byte PDU FC7
-		srvLegal(r, 16, 0x0f00, 0)[:15],                                   // FC16, one register (15 bytes)
+		[]byte{0, 1, 0, 1, 0, 6, 1, 3, 0, 0, 0, 1},                                          // protocol id 1
+		[]byte{0, 1, 0, 0, 0, 1, 1, 3, 0, 0, 0, 1},                                          // length field 1
+		append(f17(0x0e00), 0, 1, 0, 0, 0, 2, 1, 7),                                         // request + 1-byte PDU FC7
+		srvLegal(r, 16, 0x0f00, 0)[:15],                                                     // FC16, one register (15 bytes)
 	)
 	for i, s := range short {
 		if len(s) > 16 {
